@@ -452,36 +452,35 @@ func RunExhaustive(t *testing.T, id string, maxCases int, prop Prop) {
 		if shards == 1 || len(e.prefix) == 0 {
 			return shard == 0
 		}
-		idx := e.prefix[0]
+		// (a position not drawn yet counts as 0, which is the value it will get)
+		idx := e.prefix[0] * 1009
 		if len(e.prefix) > 1 {
-			idx = idx*e.bounds[1] + e.prefix[1]
+			idx += e.prefix[1]
 		}
 		return idx%shards == shard
 	}
 	n := 0
-	first := true
 	for {
-		if first || mine() {
+		// a prefix shorter than two positions has to be executed to learn its
+		// continuation (and the bounds); it only counts for the shard that owns it
+		if len(e.prefix) < 2 || mine() {
 			c, err := r.execute(e, prop, false)
-			if err != nil && (!first || shard == 0) {
-				r.failed = true
-				r.stats.Violations = 1
-				p := r.writeReplay(c, err)
-				t.Fatalf("VERIF-VIOLATION property=%s replayfile=%s\n%v", id, p, err)
-			}
-			if !first || shard == 0 {
+			if mine() {
+				if err != nil {
+					r.failed = true
+					r.stats.Violations = 1
+					p := r.writeReplay(c, err)
+					t.Fatalf("VERIF-VIOLATION property=%s replayfile=%s\n%v", id, p, err)
+				}
 				r.account(c)
 				n++
 			}
 		} else {
 			// not ours: skip the whole subtree below the first two positions
-			if len(e.prefix) > 2 {
-				e.prefix = e.prefix[:2]
-				e.bounds = e.bounds[:2]
-			}
-			e.pos = len(e.prefix)
+			e.prefix = e.prefix[:2]
+			e.bounds = e.bounds[:2]
+			e.pos = 2
 		}
-		first = false
 		if !e.next() {
 			r.stats.Exhaustive = true
 			r.stats.Extra["exhaustive_shards"] = shards
